@@ -637,7 +637,6 @@ impl MemcacheBinaryCodec {
 pub mod binary_connection {
     use vstd::prelude::*;
     use super::*;
-    use super::cmp;
 //@consts protocol/binary_connection.rs | -
 //@items protocol/binary_connection.rs | struct MemcacheBinaryConnection
 
@@ -995,6 +994,7 @@ pub mod memc_tcp {
 //@items memcache_server/memc_tcp.rs | struct MemcacheServerConfig
 
     impl MemcacheServerConfig {
+//@consts memcache_server/memc_tcp.rs | impl MemcacheServerConfig
 //@fn memcache_server/memc_tcp.rs | impl MemcacheServerConfig | new | ret=r | safety=C10
         ensures
             r.item_memory_limit == item_memory_limit && r.connection_limit == connection_limit && r.timeout_secs == timeout_secs && r.listen_backlog == listen_backlog, // @ob C13 server_config.new.limits_plumbed
